@@ -72,11 +72,26 @@ def run(crate, harnesses, timeout=1800, extra=None, jobs=None):
         cmd += ["--exact"] if False else []
         cmd += extra or []
         t0 = time.time()
+        import signal
+        import tempfile
+        fo = tempfile.TemporaryFile(mode="w+")
+        pr = subprocess.Popen(cmd, cwd=src, env=env, stdout=fo, stderr=subprocess.STDOUT, text=True, start_new_session=True)
         try:
-            p = subprocess.run(cmd, cwd=src, env=env, capture_output=True, text=True, timeout=timeout)
-        except subprocess.TimeoutExpired as e:
-            return {"_meta": {"cmd": " ".join(cmd), "timeout": True, "wall": time.time() - t0,
-                              "out": (e.stdout or b"").decode("utf8", "replace")[-4000:] if isinstance(e.stdout, bytes) else (e.stdout or "")[-4000:]}}
+            pr.wait(timeout=timeout)
+        except subprocess.TimeoutExpired:
+            try:
+                os.killpg(pr.pid, signal.SIGKILL)
+            except ProcessLookupError:
+                pass
+            pr.wait()
+            fo.seek(0)
+            return {"_meta": {"cmd": " ".join(cmd), "timeout": True, "wall": time.time() - t0, "out": fo.read()[-4000:]}}
+        fo.seek(0)
+
+        class P:
+            pass
+        p = P()
+        p.stdout, p.stderr, p.returncode = fo.read(), "", pr.returncode
         out = p.stdout + "\n" + p.stderr
         res = parse(out)
         res["_meta"] = {"cmd": " ".join(cmd), "rc": p.returncode, "wall": time.time() - t0, "out_tail": out[-6000:]}
@@ -118,7 +133,7 @@ def parse(out):
 if __name__ == "__main__":
     crate = sys.argv[1]
     hs = sys.argv[2].split(",")
-    r = run(crate, hs, extra=sys.argv[3:])
+    r = run(crate, hs, extra=sys.argv[3:], timeout=int(os.environ.get("KANI_TIMEOUT", "600")))
     meta = r.pop("_meta")
     print(json.dumps(r, indent=1))
     print(meta.get("cmd"), "rc", meta.get("rc"), "wall %.1f" % meta.get("wall", 0))
